@@ -1948,6 +1948,7 @@ class XonshParser(Parser):
         self._reset(mark)
         return None
 
+    @memoize
     def star_named_expression(self) -> Any | None:
         # star_named_expression: '*' bitwise_or | named_expression
         mark = self._mark()
